@@ -504,26 +504,11 @@ def fx_aux_on_dimcoord_scalar_axis(f):
 
 
 def fx_multi_scalar(f):
-    da = f.constructs.data_axes()
+    """Make the data span the axis, which is what the writer does with such an axis (the least
+    destructive way of taking the class out of the input: every construct and every coordinate
+    reference stays)."""
     for a in multi_scalar_axes(f):
-        ks = _spanning(f, a)
-        keep = [k for k in ks if f.constructs[k].construct_type == "dimension_coordinate" and len(da[k]) == 1][:1]
-        if not keep:
-            keep = [k for k in ks if len(da[k]) == 1][:1]
-        for k in ks:
-            if k not in keep:
-                for rk, r in list(f.coordinate_references(todict=True).items()):
-                    r.del_coordinate(k, None)
-                    if k in r.coordinate_conversion.domain_ancillaries().values():
-                        f.del_construct(rk)
-                f.del_construct(k)
-    # domain ancillaries that no coordinate reference uses any more
-    used = set()
-    for r in f.coordinate_references(todict=True).values():
-        used.update(v for v in r.coordinate_conversion.domain_ancillaries().values() if v is not None)
-    for k in list(f.domain_ancillaries(todict=True)):
-        if k not in used:
-            f.del_construct(k)
+        f = f.insert_dimension(a, position=0)
     return f
 
 
